@@ -170,6 +170,14 @@ def w_queries(idx):
     return n, out
 
 
+def py_index(op, st):
+    """add_child with a position outside 0..len (Python's negative or beyond-the-end indexes; -1 = no index)"""
+    if op["name"] != "add_child":
+        return False
+    i = op["args"][2]
+    return i < -1 or i > len(st["kids"][op["args"][0] - 1])
+
+
 def w_paths(tasks):
     """tasks: list of (init_key, depth, first_edge_index) - DFS of all paths below that first edge."""
     out, n = [], 0
@@ -195,13 +203,13 @@ def w_paths(tasks):
         if depth == 0:
             return
         for (op, tk) in graph[key]:
-            if not op["ok"]:
-                continue
+            if not op["ok"] or py_index(op, states[key]):
+                continue          # (Python's negative / beyond-the-end positions are replayed per transition, not along every path)
             dfs(prefix_ops + [(key, op, tk)], tk, depth - 1)
 
     for (ik, depth, ei) in tasks:
         op, tk = graph[ik][ei]
-        if op["ok"]:
+        if op["ok"] and not py_index(op, states[ik]):
             dfs([(ik, op, tk)], tk, depth - 1)
     return n, out
 
